@@ -207,7 +207,12 @@ class Recorder:
             elif form == "omitted":
                 f.set_config(m)
             else:
-                f.set_config(m, as_iterable(blocks, form))
+                def inner(d_=dict(d)):
+                    try:
+                        self.Bf3File({}, []).set_config(dict(d_), [b"\x03\x7f\x7e\x7d"])
+                    except Exception:                              # noqa: BLE001  (the inner package is not the one under judgement)
+                        pass
+                f.set_config(m, as_iterable(blocks, form, inner))
             self._project(f, ev)
         except Exception as e:                                    # noqa: BLE001
             ev["k"], ev["cls"] = "raise", type(e).__name__
@@ -266,7 +271,7 @@ def poison(f, k):
 
 
 # every way of handing over Iterable[bytes] (the signature of set_config), re-iterable and one-shot
-FORMS = ["list", "tuple", "iterator", "generator", "map", "iterable-class", "keysview"]
+FORMS = ["list", "tuple", "iterator", "generator", "map", "iterable-class", "keysview", "reentrant-generator"]
 
 
 class _Blocks:
@@ -279,7 +284,16 @@ class _Blocks:
         return iter(list(self._b))
 
 
-def as_iterable(blocks, form):
+def as_iterable(blocks, form, inner=None):
+    if form == "reentrant-generator":
+        # the caller prepares ANOTHER package while this one's extra blocks are being drawn (a lazily evaluated pipeline):
+        # a complete set_config on a second file runs inside the first call; the first call's result is judged as any other
+        def gen():
+            for b in list(blocks):
+                if inner is not None:
+                    inner()
+                yield b
+        return gen()
     if form == "list":
         return list(blocks)
     if form == "tuple":
